@@ -472,3 +472,126 @@ where
     }
     while set.join_next().await.is_some() {}
 }
+
+// ---------------------------------------------------------------------------
+// TLS-record-recording relay: forwards bytes unchanged and logs (outer type, length, time) of every
+// TLS record in both directions. What an on-path observer sees — the sizes C05 is about.
+
+#[derive(Clone, Copy, Debug)]
+pub struct TlsRec {
+    pub typ: u8,
+    pub len: usize,
+    pub at: Instant,
+}
+
+#[derive(Default)]
+pub struct ConnRec {
+    pub c2s: Mutex<Vec<TlsRec>>,
+    pub s2c: Mutex<Vec<TlsRec>>,
+    /// bytes that did not parse as TLS records (never expected)
+    pub garbage: Mutex<Vec<String>>,
+}
+
+pub struct RecRelay {
+    pub addr: String,
+    pub conns: Arc<Mutex<Vec<Arc<ConnRec>>>>,
+    task: tokio::task::JoinHandle<()>,
+}
+
+impl Drop for RecRelay {
+    fn drop(&mut self) {
+        self.task.abort();
+    }
+}
+
+#[derive(Default)]
+struct RecParser {
+    hdr: Vec<u8>,
+    skip: usize,
+}
+
+impl RecParser {
+    fn feed(&mut self, mut data: &[u8], out: &Mutex<Vec<TlsRec>>, garbage: &Mutex<Vec<String>>) {
+        while !data.is_empty() {
+            if self.skip > 0 {
+                let n = self.skip.min(data.len());
+                self.skip -= n;
+                data = &data[n..];
+                continue;
+            }
+            let need = 5 - self.hdr.len();
+            let n = need.min(data.len());
+            self.hdr.extend_from_slice(&data[..n]);
+            data = &data[n..];
+            if self.hdr.len() == 5 {
+                let typ = self.hdr[0];
+                let len = ((self.hdr[3] as usize) << 8) | self.hdr[4] as usize;
+                if !(20..=24).contains(&typ) || self.hdr[1] != 3 || len > 16384 + 256 {
+                    garbage.lock().unwrap().push(format!("{:02x?}", self.hdr));
+                }
+                out.lock().unwrap().push(TlsRec { typ, len, at: Instant::now() });
+                self.skip = len;
+                self.hdr.clear();
+            }
+        }
+    }
+}
+
+pub async fn start_rec_relay(server_addr: String) -> Option<RecRelay> {
+    let l = TcpListener::bind("127.0.0.1:0").await.ok()?;
+    let addr = l.local_addr().ok()?.to_string();
+    let conns: Arc<Mutex<Vec<Arc<ConnRec>>>> = Arc::new(Mutex::new(Vec::new()));
+    let c2 = conns.clone();
+    let task = tokio::spawn(async move {
+        loop {
+            let Ok((c, _)) = l.accept().await else { continue };
+            let _ = c.set_nodelay(true);
+            let rec = Arc::new(ConnRec::default());
+            c2.lock().unwrap().push(rec.clone());
+            let sa = server_addr.clone();
+            tokio::spawn(async move {
+                let Ok(s) = TcpStream::connect(&sa).await else { return };
+                let _ = s.set_nodelay(true);
+                let (mut cr, mut cw) = c.into_split();
+                let (mut sr, mut sw) = s.into_split();
+                let r1 = rec.clone();
+                let up = tokio::spawn(async move {
+                    let mut p = RecParser::default();
+                    let mut buf = vec![0u8; 32768];
+                    loop {
+                        match cr.read(&mut buf).await {
+                            Ok(0) | Err(_) => break,
+                            Ok(n) => {
+                                p.feed(&buf[..n], &r1.c2s, &r1.garbage);
+                                if sw.write_all(&buf[..n]).await.is_err() {
+                                    break;
+                                }
+                            }
+                        }
+                    }
+                    let _ = sw.shutdown().await;
+                });
+                let r2 = rec.clone();
+                let down = tokio::spawn(async move {
+                    let mut p = RecParser::default();
+                    let mut buf = vec![0u8; 32768];
+                    loop {
+                        match sr.read(&mut buf).await {
+                            Ok(0) | Err(_) => break,
+                            Ok(n) => {
+                                p.feed(&buf[..n], &r2.s2c, &r2.garbage);
+                                if cw.write_all(&buf[..n]).await.is_err() {
+                                    break;
+                                }
+                            }
+                        }
+                    }
+                    let _ = cw.shutdown().await;
+                });
+                let _ = up.await;
+                let _ = down.await;
+            });
+        }
+    });
+    Some(RecRelay { addr, conns, task })
+}
